@@ -120,6 +120,10 @@ class Search:
     def off(self, path):
         return self.info["by_path"][path]["off"]
 
+    def tag(self, cfg, path, kind):
+        for dn in case_dims(cfg, path, kind):
+            self.hist["dim|" + dn] = self.hist.get("dim|" + dn, 0) + 1
+
     def peek(self, sim, path, ty=ctypes.c_uint):
         return ty.from_address(ctypes.addressof(sim) + self.off(path)).value
 
@@ -326,6 +330,9 @@ class Search:
             self.hist["rejected_config"] = self.hist.get("rejected_config", 0) + 1
             return
         key = cfg_key(cfg)
+        # 64-bit counters beyond 2^32 (a field written / read with 4 bytes would come back truncated)
+        self.poke(a, "collisions_log_n", 5 * 2 ** 32 + 7, ctypes.c_int64)
+        self.hist["dim|scale:counters_ge_2^32"] = self.hist.get("dim|scale:counters_ge_2^32", 0) + 1
         b0 = R.save(a)
         r, warns = self.restore(a, path)
         attach(r, cfg)
@@ -337,6 +344,7 @@ class Search:
         self.hist["path_" + path] = self.hist.get("path_" + path, 0) + 1
         self.hist["integrator_" + cfg["integrator"]] = self.hist.get("integrator_" + cfg["integrator"], 0) + 1
         c.count((key, path), nontrivial=cfg["save_after"] > 0 or bool(cfg.get("o")))
+        self.tag(cfg, path, "one")
         if d1:
             c.violation("restore:" + d1.split(" ")[0], "restored simulation differs from the saved one in %s (path %s)" % (d1, path),
                         {"cfg": cfg, "path": path, "difference": d1})
@@ -357,6 +365,14 @@ class Search:
             if not R.tree_complete(a):
                 self.hist["source_tree_incomplete"] = self.hist.get("source_tree_incomplete", 0) + 1
         bad_warn = [w for w in warns if "function pointers" not in w]
+        has_cb = bool(cfg.get("collision")) or bool(cfg.get("cb"))
+        if has_cb:
+            self.hist["callbacks_set_at_save"] = self.hist.get("callbacks_set_at_save", 0) + 1
+        if has_cb != any("function pointers" in w for w in warns):
+            only = cfg.get("cb", [])
+            c.violation("C05-N12:pre_timestep_modifications-not-flagged" if (only == ["pre"] and not cfg.get("collision")) else "callback-warning:" + path,
+                        "callbacks %s at save time but the 'reset function pointers' warning is %s on load (%s), cfg %s" % (
+                            "set" if has_cb else "not set", "missing" if has_cb else "raised", path, key), {"cfg": cfg, "path": path, "warnings": warns})
         if bad_warn:
             c.violation("warning:" + bad_warn[0][:40], "loading a just-saved simulation warns: %s" % bad_warn[0], {"cfg": cfg, "path": path})
         # re-save reproduces the persisted content
@@ -401,6 +417,7 @@ def _twin_one(self, cfg, path, k=9):
         self.hist["rejected_config"] = self.hist.get("rejected_config", 0) + 1
         return
     c.count(("twin", cfg_key(cfg), path, k), nontrivial=True)
+    self.tag(cfg, path, "twin")
     self.hist["twin_cases"] = self.hist.get("twin_cases", 0) + 1
     self.restore(t1, path)            # the save (through any public path); its result is discarded
     try:
@@ -502,6 +519,7 @@ def _archive_one(self, cfg, k=7):
         fixed_dt = cfg["integrator"] not in ("ias15", "bs", "trace", "mercurius")
         for name, fn_restore, j, gs in paths:
             c.count(("archive", key, name), nontrivial=True)
+            self.tag(cfg, "archive:" + name.split("(")[0], "archive")
             self.hist["archive_" + name.split("(")[0]] = self.hist.get("archive_" + name.split("(")[0], 0) + 1
             try:
                 r = fn_restore()
@@ -590,6 +608,7 @@ def _syncsave_one(self, cfg, path, k=7):
         return
     key = cfg_key(cfg)
     c.count(("syncsave", key, path), nontrivial=True)
+    self.tag(cfg, path, "syncsave")
     self.hist["syncsave_cases"] = self.hist.get("syncsave_cases", 0) + 1
 
     def phys(sim):
@@ -662,7 +681,11 @@ def correspondence(c, exe, rb, info, R, cfgs):
             if frame(h, mf, t) != b:
                 rf = parse_stream(b)[1]
                 c.corr_break("model decode+encode of a real stream is not the identity: " + str(R.first_difference(rf, mf)), {"cfg": cfg})
-            fpset = bool(cfg.get("collision"))
+            # the writer's list (output.c:594-604) does not contain pre_timestep_modifications (finding C05-N12)
+            cbm = {"additional_forces": "additional_forces", "additional_forces_vel": "additional_forces", "heartbeat": "heartbeat",
+                   "pre": "pre_timestep_modifications", "post": "post_timestep_modifications"}
+            fpset = (bool(cfg.get("collision")) and "collision_resolve" in info["fp_members"]) or \
+                any(cbm[cb] in info["fp_members"] for cb in cfg.get("cb", []))
             if warns != ("pointers" if fpset else "none"):
                 c.corr_break("model raises warnings %s reading a real stream" % warns, {"cfg": cfg})
         else:
@@ -946,6 +969,218 @@ def archive_field_sweep(c, S, info, R, rb):
     c.cov["archive_field_sweep"] = res
 
 
+def dimension_cases(c, S, info, R, rb):
+    """one-off cases for cross-cutting dimensions that are not lattice options; each in a forked child; returns
+    {dimension: number of evaluated cases}"""
+    import warnings
+    dims = {}
+    base = {"integrator": "whfast", "o": {"safe_mode": 0}, "system": "planets", "save_after": 3}
+    paths = ("buffer", "file", "copy", "pickle")
+
+    def run(name, fn):
+        ok, out = forked(fn, None)
+        if not ok:
+            c.violation("dimension-crash:" + name, "dimension case %s crashed" % name, {"dimension": name})
+            return
+        dims[name] = dims.get(name, 0) + out.get("n", 0)
+        c.count(("dimension", name), n=max(1, out.get("n", 0)))
+        for key, what, rep in out.get("viol", []):
+            c.violation(key, what, rep)
+
+    def rand_state(_):
+        viol, n = [], 0
+        rb.clibrebound.reb_random_uniform.restype = ctypes.c_double
+        for cfg in (base, dict(base, megno=1, integrator="ias15", o={})):
+            for path in paths:
+                a = build_sim(rb, cfg); advance(a, 3)
+                for i in range(3):
+                    rb.clibrebound.reb_random_uniform(ctypes.byref(a), ctypes.c_double(0.0), ctypes.c_double(1.0))
+                r, _ = S.restore(a, path)
+                xa = [rb.clibrebound.reb_random_uniform(ctypes.byref(a), ctypes.c_double(0.0), ctypes.c_double(1.0)) for i in range(5)]
+                xr = [rb.clibrebound.reb_random_uniform(ctypes.byref(r), ctypes.c_double(0.0), ctypes.c_double(1.0)) for i in range(5)]
+                n += 1
+                if xa != xr:
+                    viol.append(("random-stream:" + path, "random numbers drawn after a restore (%s) differ from those of the original: %s vs %s" % (path, xa[:2], xr[:2]), {"cfg": cfg, "path": path}))
+        return {"n": n, "viol": viol}
+
+    def units_hashes(_):
+        viol, n = [], 0
+        for path in paths:
+            cfg = dict(base, units=1, hashes=1)
+            a = build_sim(rb, cfg); advance(a, 2)
+            r, _ = S.restore(a, path)
+            n += 1
+            if tuple(r.units[k_] for k_ in ("length", "time", "mass")) != tuple(a.units[k_] for k_ in ("length", "time", "mass")) or r.G != a.G:
+                viol.append(("units-lost:" + path, "units / G of the restored simulation differ: %s vs %s" % (r.units, a.units), {"cfg": cfg, "path": path}))
+            for nm in ("sun", "venus", "earth"):
+                try:
+                    if r.particles[nm].index != a.particles[nm].index or r.particles[nm].hash.value != a.particles[nm].hash.value:
+                        viol.append(("hash-lookup:" + path, "particle looked up by name %s differs after restore" % nm, {"cfg": cfg, "path": path}))
+                except Exception as e:
+                    viol.append(("hash-lookup:" + path, "particle %s cannot be looked up by name after restore: %s" % (nm, e), {"cfg": cfg, "path": path}))
+        return {"n": n, "viol": viol}
+
+    def ap_pointer(_):
+        viol, n = [], 0
+        for path in paths:
+            a = build_sim(rb, base); advance(a, 2)
+            off = info["elems"]["reb_particle"]["members"]
+            apo = [m for m in off if m["name"] == "ap"][0]["off"]
+            ptr = ctypes.c_void_p.from_address(ctypes.addressof(a) + info["by_path"]["particles"]["off"]).value
+            ctypes.c_uint64.from_address(ptr + 128 * 1 + apo).value = 0xDEADBEEF00
+            r, _ = S.restore(a, path)
+            ptr2 = ctypes.c_void_p.from_address(ctypes.addressof(r) + info["by_path"]["particles"]["off"]).value
+            got = ctypes.c_uint64.from_address(ptr2 + 128 * 1 + apo).value
+            ctypes.c_uint64.from_address(ptr + 128 * 1 + apo).value = 0
+            n += 1
+            if got != 0:
+                viol.append(("ap-pointer-survives:" + path, "the `ap` pointer of a particle (an address of the saving process) is %#x after restore, not NULL" % got, {"path": path}))
+        return {"n": n, "viol": viol}
+
+    def populated(_):
+        viol, n = [], 0
+        for cfg_src, cfg_dst in ((base, {"integrator": "ias15", "o": {}, "system": "close", "save_after": 4, "variational": 1}),
+                                 ({"integrator": "ias15", "o": {}, "system": "planets", "save_after": 3, "variational": 2}, dict(base, system="big130")),
+                                 ({"integrator": "leapfrog", "o": {}, "system": "n0", "save_after": 0}, base)):
+            a = build_sim(rb, cfg_src); advance(a, cfg_src["save_after"]); R.save(a)
+            dst = build_sim(rb, cfg_dst); advance(dst, cfg_dst["save_after"])
+            w = ctypes.c_int(0)
+            rb.clibrebound.reb_simulation_copy_with_messages(ctypes.byref(dst), ctypes.byref(a), ctypes.byref(w))
+            attach(dst, cfg_src)
+            n += 1
+            d_ = R.first_difference(R.persisted_view(a, drop_wall=False), R.persisted_view(dst, drop_wall=False))
+            raw = R.raw_member_differences(a, dst)
+            if d_ or raw:
+                viol.append(("restore-onto-populated", "restoring onto an already populated simulation leaves differences: %s %s" % (d_, raw[:3]), {"src": cfg_src, "dst": cfg_dst}))
+                continue
+            try:
+                advance(a, 5); advance(dst, 5)
+            except Exception:
+                continue
+            d2 = R.first_difference(S.semantic(R.persisted_view(a)), S.semantic(R.persisted_view(dst)))
+            if d2:
+                viol.append(("restore-onto-populated:continue", "a simulation restored onto an already populated struct does not continue bit-for-bit: %s" % d2, {"src": cfg_src, "dst": cfg_dst}))
+        return {"n": n, "viol": viol}
+
+    def old_file(_):
+        viol, n = [], 0
+        fn = os.path.join(REPO, "examples", "solar_system_with_testparticles", "ss-2023-11-12.bin")
+        if not os.path.exists(fn):
+            return {"n": 0, "viol": []}
+        with warnings.catch_warnings(record=True) as w:
+            warnings.simplefilter("always")
+            r = rb.Simulation(fn)
+        msgs = [str(x.message) for x in w]
+        n += 1
+        if not any("version" in m_.lower() for m_ in msgs):
+            viol.append(("old-file-no-version-warning", "loading a file written by an older REBOUND version gives no version warning: %s" % msgs[:2], {"file": fn}))
+        r2, _ = R.load_bytes(R.save(r))
+        d_ = R.first_difference(R.persisted_view(r, drop_wall=False), R.persisted_view(r2, drop_wall=False))
+        if d_:
+            viol.append(("old-file-resave", "a simulation loaded from an old-version file does not survive save+load: %s" % d_, {"file": fn}))
+        r.steps(3); r2.steps(3)
+        d2 = R.first_difference(S.semantic(R.persisted_view(r)), S.semantic(R.persisted_view(r2)))
+        if d2:
+            viol.append(("old-file-continue", "continuation after re-saving an old-version simulation differs: %s" % d2, {"file": fn}))
+        return {"n": n + 1, "viol": viol}
+
+    def auto_archive(_):
+        """snapshots written by the library itself inside the step loop (save_to_file(step=...)) and by a heartbeat
+        callback that calls save_to_file in the middle of integrate()"""
+        viol, n = [], 0
+        for integ, o in (("whfast", {"safe_mode": 0}), ("whfast", {"safe_mode": 1}), ("ias15", {}), ("mercurius", {"safe_mode": 0}), ("leapfrog", {})):
+            cfg = {"integrator": integ, "o": o, "system": "close" if integ == "mercurius" else "planets", "save_after": 0}
+            fn = os.path.join(S.tmp, "auto.bin")
+            a = build_sim(rb, cfg)
+            a.save_to_file(fn, step=3, delete_file=True)
+            a.integrate(a.t + 10.2 * a.dt, exact_finish_time=0)      # automatic snapshots are taken by integrate(), not by steps()
+            with warnings.catch_warnings():
+                warnings.simplefilter("ignore")
+                sa = rb.Simulationarchive(fn)
+                for i in range(len(sa)):
+                    r = sa[i]
+                    u = build_sim(rb, cfg); u.steps(int(r.steps_done))
+                    n += 1
+                    # the automatic snapshot synchronises a copy for output: compare the physical state after a final synchronise
+                    u.steps(4); r.steps(4); u.synchronize(); r.synchronize()
+                    pu = [(t, p) for t, p in R.persisted_view(u) if R.names.get(t) in PHYS]
+                    pr = [(t, p) for t, p in R.persisted_view(r) if R.names.get(t) in PHYS]
+                    d_ = R.first_difference(pu, pr)
+                    if d_:
+                        viol.append(("auto-archive:" + integ, "automatic snapshot %d (every 3 steps) restored and continued differs from the uninterrupted run: %s" % (i, d_), {"cfg": cfg, "snapshot": i}))
+                        break
+            # heartbeat that saves in the middle of integrate()
+            fn2 = os.path.join(S.tmp, "hb.bin")
+            if os.path.exists(fn2):
+                os.remove(fn2)
+            a = build_sim(rb, cfg)
+
+            def hb(reb_sim):
+                s_ = reb_sim.contents
+                if s_.steps_done == 4:
+                    s_.save_to_file(fn2)
+            a.heartbeat = hb
+            a.integrate(a.t + 60 * a.dt)
+            if os.path.exists(fn2):
+                with warnings.catch_warnings():
+                    warnings.simplefilter("ignore")
+                    r = rb.Simulation(fn2)
+                u = build_sim(rb, cfg); u.steps(int(r.steps_done))
+                n += 1
+                u.steps(4); r.steps(4); u.synchronize(); r.synchronize()
+                pu = [(t, p) for t, p in R.persisted_view(u) if R.names.get(t) in PHYS and R.names.get(t) != "dt"]
+                pr = [(t, p) for t, p in R.persisted_view(r) if R.names.get(t) in PHYS and R.names.get(t) != "dt"]
+                d_ = R.first_difference(pu, pr)
+                if d_ and integ != "ias15":
+                    viol.append(("heartbeat-save:" + integ, "a snapshot saved by a heartbeat in the middle of integrate(), restored and continued, differs from the uninterrupted run: %s" % d_, {"cfg": cfg}))
+            else:
+                viol.append(("heartbeat-save:nofile", "heartbeat did not write the snapshot", {"cfg": cfg}))
+        return {"n": n, "viol": viol}
+
+    def user_odes(_):
+        viol, n = [], 0
+        a = build_sim(rb, dict(base, integrator="bs", o={})); advance(a, 2)
+        ode = a.create_ode(length=2, needs_nbody=False)
+
+        def deriv(ode_, ydot, y, t):
+            ydot[0] = y[1]; ydot[1] = -y[0]
+        ode.derivatives = deriv
+        ode.y[0] = 1.0
+        a.steps(2)
+        with warnings.catch_warnings(record=True) as w:
+            warnings.simplefilter("always")
+            r = a.copy()
+        n += 1
+        nod = ctypes.c_int.from_address(ctypes.addressof(r) + info["by_path"]["N_odes"]["off"]).value
+        if nod != 0:
+            viol.append(("odes-copied", "user ODEs appear in the copy (N_odes=%d) although they are not persisted" % nod, {}))
+        if not w:
+            viol.append(("C05-N13:user-odes-dropped-silently", "a simulation with a user ODE is saved / copied without any warning; the restored simulation has no ODE", {"edit": "create_ode + copy()"}))
+        return {"n": n, "viol": viol}
+
+    run("python:random_stream_continuity", rand_state)
+    run("python:units_and_name_lookup_after_restore", units_hashes)
+    run("pointers:ap_not_persisted", ap_pointer)
+    run("histories:restore_onto_populated_struct", populated)
+    run("versions:file_written_by_older_version", old_file)
+    run("histories:auto_archive_and_heartbeat_save", auto_archive)
+    run("callbacks:user_odes_not_persisted", user_odes)
+    return dims
+
+
+def finish_dimensions(c, S, extra, applicable):
+    dm = {k_[4:]: v for k_, v in S.hist.items() if k_.startswith("dim|")}
+    for k_ in [k_ for k_ in list(S.hist) if k_.startswith("dim|")]:
+        del S.hist[k_]
+    dm.update(extra)
+    for dn in applicable:
+        dm.setdefault(dn, 0)
+    c.cov["dimensions"] = dict(sorted(dm.items()))
+    for dn in applicable:
+        if dm[dn] == 0:
+            c.corr_break("dimension %s not covered (0 evaluated cases)" % dn)
+
+
 def targeted(c, S, rb, rng, thorough):
     """scenarios aimed at the members the coverage theorem lists as not persisted but read by an integrator"""
     cases = []
@@ -1033,6 +1268,10 @@ def run_cases(c, S, cases, nproc=8, chunk=12, budget=45):
                 with os.fdopen(wfd, "wb") as f:
                     f.write(data)
                 rcode = 0
+            except BaseException:
+                import traceback
+                traceback.print_exc()          # a bug of the check itself, not a crash of the library: exit code 3
+                rcode = 3
             finally:
                 os._exit(rcode)
         os.close(wfd)
@@ -1072,6 +1311,9 @@ def run_cases(c, S, cases, nproc=8, chunk=12, budget=45):
                 finish(start([one]))
         else:
             cfg, path, k = sub[0][0], sub[0][1], sub[0][2]
+            if os.WIFEXITED(status) and os.WEXITSTATUS(status) == 3:
+                c.corr_break("the check's worker raised a Python exception on cfg %s (see stderr)" % cfg_key(cfg)[:200])
+                return
             key = "crash:" + cfg["integrator"]
             if any(op.startswith("switchraw:") for op in cfg.get("pre", []) + cfg.get("post", [])):
                 # C05-N11 (stale BS ode of the wrong length after a raw integrator switch + add/remove corrupts memory)
@@ -1221,6 +1463,9 @@ def run(c):
     archive_field_sweep(c, S, info, R, rb)
     c.log("sweeps done")
     targeted(c, S, rb, c.rng, c.thorough)
+    extra = dimension_cases(c, S, info, R, rb)
+    finish_dimensions(c, S, extra, DIMS_COMMON + ["kind:one", "kind:twin", "kind:archive", "kind:syncsave", "histories:structural_ops",
+                      "histories:integrator_switch", "histories:add_remove", "histories:explicit_synchronize", "scale:counters_ge_2^32"] + list(extra))
     c.cov["histogram"] = S.hist
     c.sample({"cfg": cfgs[7], "path": "file"})
     c.sample({"cfg": cfgs[len(cfgs) // 2], "path": "pickle"})
